@@ -8,7 +8,7 @@ import (
 )
 
 // RootKinds lists the root classes RandomRoot can build.
-var RootKinds = []string{"played", "fresh", "in-check", "few-replies", "promotion", "near-fifty", "repetition-2", "repetition-3", "mate", "stalemate", "dense", "castle", "blocked-castle"}
+var RootKinds = []string{"played", "fresh", "in-check", "few-replies", "promotion", "near-fifty", "repetition-2", "repetition-3", "mate", "stalemate", "dense", "castle", "blocked-castle", "locked"}
 
 func stepsMoves(st []gen.Step) []ref.Move {
 	m := make([]ref.Move, len(st))
@@ -73,6 +73,88 @@ func RandomRoot(rng *rand.Rand, kind string) (Root, string) {
 			}
 			if p.Valid() && len(p.Legal()) > 0 {
 				return NewRoot(p.Normalised(), nil), kind
+			}
+		case "locked":
+			// rammed pawn pairs, kings on the edge, at most two other pieces: one to three legal moves,
+			// most pseudo-legal moves (pawn captures onto defended squares aside) are king steps
+			var p ref.Pos
+			p.EP = -1
+			p.Full = 1 + rng.IntN(60)
+			p.Half = rng.IntN(40)
+			p.White = rng.IntN(2) == 0
+			if rng.IntN(2) == 0 {
+				// boxed king: white Kh1/Ka1 behind two rammed pawns, its only quiet move the step along
+				// the back rank; enemy men where the pawns could capture them (not necessarily legally)
+				p.White = true
+				kf, d := 7, -1
+				if rng.IntN(2) == 0 {
+					kf, d = 0, 1
+				}
+				p.Sq[kf] = ref.K
+				p.Sq[8+kf], p.Sq[8+kf+d] = ref.P, ref.P
+				p.Sq[16+kf], p.Sq[16+kf+d] = -ref.P, -ref.P
+				for i := rng.IntN(3); i > 0; i-- {
+					sq := 16 + kf + 2*d
+					if rng.IntN(3) == 0 {
+						sq = 8 + kf + 2*d
+					}
+					p.Sq[sq] = -int8(2 + rng.IntN(4))
+				}
+				for f := 0; f < 8; f++ {
+					if rk := 1 + rng.IntN(5); rng.IntN(10) < 4 && p.Sq[rk*8+f] == 0 && p.Sq[(rk+1)*8+f] == 0 && p.Sq[f] != ref.K {
+						p.Sq[rk*8+f], p.Sq[(rk+1)*8+f] = ref.P, -ref.P
+					}
+				}
+				bk := 40 + rng.IntN(24)
+				if p.Sq[bk] != 0 {
+					continue
+				}
+				p.Sq[bk] = -ref.K
+				if rng.IntN(2) == 0 {
+					p = p.Mirror()
+				}
+				if p.Valid() && len(p.Legal()) >= 1 {
+					return NewRoot(p.Normalised(), nil), kind
+				}
+				continue
+			}
+			for f := 0; f < 8; f++ {
+				if rng.IntN(10) < 6 {
+					rk := 1 + rng.IntN(5) // white pawn on rank index 1..5, black pawn right in front
+					p.Sq[rk*8+f], p.Sq[(rk+1)*8+f] = ref.P, -ref.P
+				}
+			}
+			edge := func() int {
+				switch rng.IntN(4) {
+				case 0:
+					return rng.IntN(8)
+				case 1:
+					return 56 + rng.IntN(8)
+				case 2:
+					return 8 * rng.IntN(8)
+				}
+				return 8*rng.IntN(8) + 7
+			}
+			wk, bk := edge(), edge()
+			if p.Sq[wk] != 0 || p.Sq[bk] != 0 || wk == bk {
+				continue
+			}
+			p.Sq[wk], p.Sq[bk] = ref.K, -ref.K
+			for i := rng.IntN(3); i > 0; i-- {
+				sq := rng.IntN(64)
+				if p.Sq[sq] != 0 {
+					continue
+				}
+				v := int8(2 + rng.IntN(2))
+				if rng.IntN(2) == 0 {
+					v = -v
+				}
+				p.Sq[sq] = v
+			}
+			if p.Valid() {
+				if n := len(p.Legal()); n >= 1 && n <= 3 {
+					return NewRoot(p.Normalised(), nil), kind
+				}
 			}
 		case "castle":
 			if p, ok := gen.Castle(rng); ok && len(p.Legal()) > 0 {
